@@ -155,6 +155,8 @@ def replay(ctx, data):
     inp = data["input"]
     case = inp["case"]
     r = Result()
+    if "history" in inp:
+        return solvers.replay_inplace(inp)
     if inp.get("algo") == "generate_all":
         gen_all_check(ctx, r, [case])
     else:
